@@ -450,6 +450,12 @@ def r10(ctx):
     ctx.floor("C13.R10", 1)
 
 
+def r11(ctx):
+    """the scans behind the head queries and behind the removal of a document end at bounds computed by the two byte primitives
+    (increment_by_one, prefix_successor), evaluated on concrete byte strings (= C02.R3)"""
+    from . import C02
+    ctx.share("C13.R11", C02.r3, "C02.R3", floor=2)
+
 def run(ctx):
     ctx.run_rule("C13.R1", r1)
     ctx.run_rule("C13.R2", r2)
@@ -461,3 +467,4 @@ def run(ctx):
     ctx.run_rule("C13.R8", r8)
     ctx.run_rule("C13.R9", r9)
     ctx.run_rule("C13.R10", r10)
+    ctx.run_rule("C13.R11", r11)
